@@ -56,6 +56,19 @@ func (core *JApiCore) drainCurrentScanner() *jerr.JApiError {
 
 // simply decides which function to call based on lexeme type
 func (core *JApiCore) next(lexeme scanner.Lexeme) *jerr.JApiError {
+	if core.currentDirective == nil {
+		switch lexeme.Type() { //nolint:exhaustive // Only lexemes which belong to a directive.
+		case scanner.Parameter, scanner.Annotation, scanner.Schema, scanner.Text, scanner.Json, scanner.Enum,
+			scanner.ContextExplicitOpening:
+			// There is no directive to which this lexeme can be attached, i.e. a file
+			// begins with a parenthesis, or something follows the INCLUDE's parameter.
+			return core.japiError(
+				fmt.Sprintf("%s: unexpected %s", jerr.IncorrectDirectiveContext, lexeme.Type().String()),
+				lexeme.Begin(),
+			)
+		}
+	}
+
 	switch lexeme.Type() {
 	case scanner.Keyword:
 		return core.processKeyword(lexeme)
